@@ -309,6 +309,7 @@ def run_isolated(fn, case, timeout=120):
 
 
 _POOL_FN = None
+HARNESS_EXC = '__raised_outside_observation__'
 
 
 def _pool_init(modname, fname, isolate):
@@ -367,7 +368,12 @@ def run_impl(modname, fname, cases, isolate=True, procs=NCPU):
     res = []
     for unit, (tag, val) in zip(cases, out):
         if tag != 'ok':
-            raise RuntimeError(f"harness error in implementation runner: {val}")
+            # the library raised where the harness observes nothing (e.g. while a
+            # world is set up): behaviour the model does not predict.  The runner
+            # reports the case as a violation (never happens on the unchanged tree)
+            mark = {HARNESS_EXC: str(val)[-600:]}
+            res.extend([mark] * len(unit) if isinstance(unit, list) else [mark])
+            continue
         if isinstance(unit, list):
             res.extend(val)
         else:
